@@ -631,7 +631,7 @@ func genC02(ctx *hx.Ctx, emit func(hx.Case)) {
 	c02Exhaustive(ctx, emit)
 	n := 1500
 	if ctx.Thorough() {
-		n = 25000
+		n = 15000
 	}
 	for i := 0; i < n; i++ {
 		emit(c02Random(ctx.Rng))
@@ -980,7 +980,9 @@ func c02Random(r *hx.Rng) hx.Case {
 	//     diamonds, self references), component names unique per file.
 	// (B) chains: one directory, top-level components may themselves be references (reference to reference),
 	//     references only point to components declared LATER (acyclic).
-	// (C) several directories, names shared between files (the same text in several files), acyclic.
+	// (C) several directories, names shared between files (the same text in several files), acyclic, top-level
+	//     components are values.
+	// Dangling and wrong-kind references are injected in (B) and (C) only.
 	// Cycles that pass through a reference to a reference or that span directories are covered by the
 	// enumerated shapes; at random they mostly land in the known classes (#29, second walk).
 	cyclic := r.Chance(40)
@@ -1039,10 +1041,10 @@ func c02Random(r *hx.Rng) hx.Case {
 		}
 		rid++
 		id := "r" + strconv.Itoa(rid)
-		if len(cands) == 0 && !r.Chance(10) {
+		if len(cands) == 0 && (cyclic || !r.Chance(10)) {
 			return c02Val(kind, "inline-"+id) // nothing to point at: an inline value
 		}
-		if len(cands) == 0 || r.Chance(3) {
+		if len(cands) == 0 || (!cyclic && r.Chance(3)) {
 			if len(comps) > 0 && r.Bool() {
 				c := hx.Pick(r, comps)
 				return c02Ref(c02Spell(from, c.file, 0)+c02Ptr(c.kind, c.name), id) // most likely wrong kind
@@ -1092,7 +1094,7 @@ func c02Random(r *hx.Rng) hx.Case {
 	for ci, c := range comps {
 		cur = ci
 		var obj any
-		if !cyclic && r.Chance(25) {
+		if !cyclic && !multi && r.Chance(25) {
 			obj = mkRef(c.file, c.kind)
 		} else {
 			obj = mkVal(c.file, c.kind, c.name+"@"+c.file, 0)
